@@ -176,6 +176,8 @@ def gen_job(rng):
     job = {'program': program, 'blocked': blocked, 'switches': switches, 'probe': probe}
     if rng.random() < 0.2:
         job['no_dist_info'] = True
+    if rng.random() < 0.1:
+        job['stdio'] = rng.choice(['none', 'none', 'closed', 'ascii'])
     return job
 
 
@@ -342,6 +344,8 @@ def run_chunk(task, agg):
         agg.count('switches:' + (' '.join(job['switches']) or 'none'))
         for b in job['blocked']:
             agg.count('fault:missing-module:' + b)
+        if job.get('stdio'):
+            agg.count('fault:standard-streams-' + job['stdio'])
         if job.get('no_dist_info'):
             agg.count('fault:no-distribution-metadata')
             if res and res.get('dist_info_lookups'):
@@ -448,7 +452,8 @@ def describe(rec):
     lines = ['oracle ' + v['oracle'] + ': ' + json.dumps({k: v[k] for k in v if k != 'oracle'}, default=str)[:700]]
     lines.append('fresh interpreter: ' + ' '.join([PY] + j['switches']) + f"   absent modules: {j['blocked'] or 'none'}"
                  + ('   (no installed distribution metadata for soupsieve)' if j.get('no_dist_info') else '')
-                 + (f"   environment: {j['env']}" if j.get('env') else ''))
+                 + (f"   environment: {j['env']}" if j.get('env') else '')
+                 + (f"   sys.stdout/sys.stderr: {j['stdio']}" if j.get('stdio') else ''))
     for i, s in enumerate(j['program']):
         lines.append(f'  {i}: {s}')
     lines.append('probe: ' + json.dumps(j['probe'])[:400])
@@ -501,6 +506,10 @@ def minimise_record(rec, budget_n=40):
         if job.get('no_dist_info'):
             c = json.loads(json.dumps(job))
             c.pop('no_dist_info')
+            cands.append(c)
+        if job.get('stdio'):
+            c = json.loads(json.dumps(job))
+            c.pop('stdio')
             cands.append(c)
         if job['probe']['parser'] != 'html.parser' and not job['probe'].get('namespaces'):
             c = json.loads(json.dumps(job))
